@@ -85,6 +85,64 @@ def fk(x):
 def gk(x):
     __vtrace__("gk", x)
     return KeyOverrideResult(["kv", x], "ko/k2")
+
+@m.memento_function
+def par(x):
+    __vtrace__("par", x)
+    return [f(x), "par"]
+
+@m.memento_function
+def par2(x):
+    __vtrace__("par2", x)
+    return [f(x), "par"]
+
+@m.memento_function
+def ff(x):
+    __vtrace__("ff", x)
+    import pandas as pd
+    return pd.DataFrame({"a": [x, 2, 3], "b": ["p", "q", "r"]})
+
+@m.memento_function
+def gf(x):
+    __vtrace__("gf", x)
+    import pandas as pd
+    return pd.DataFrame({"a": [x, 2, 3], "b": ["p", "q", "r"]})
+
+@m.memento_function
+def fa(x):
+    __vtrace__("fa", x)
+    import numpy as np
+    return np.arange(x, x + 6, dtype="int64").reshape(2, 3)
+
+@m.memento_function
+def ga(x):
+    __vtrace__("ga", x)
+    import numpy as np
+    return np.arange(x, x + 6, dtype="int64").reshape(2, 3)
+
+@m.memento_function
+def fm(x):
+    __vtrace__("fm", x)
+    p = InMemoryPartition({"b": "own", "c": [x]})
+    p._merge_parent = fp(x)
+    return p
+
+@m.memento_function
+def gm(x):
+    __vtrace__("gm", x)
+    p = InMemoryPartition({"b": "own", "c": [x]})
+    p._merge_parent = fp(x)
+    return p
+
+@m.memento_function
+def fd(x):
+    __vtrace__("fd", x)
+    return {"k": [x, "hello"], "n": {"deep": (x, 2.5, None, True)}, "s": "text" * 40}
+
+@m.memento_function
+def gd(x):
+    __vtrace__("gd", x)
+    return {"k": [x, "hello"], "n": {"deep": (x, 2.5, None, True)}, "s": "text" * 40}
 '''
 
 
@@ -101,7 +159,27 @@ def expect(fn, x):
         return ["ok", None]
     if fn in ("fk", "gk"):
         return ["ok", ["kv", x]]
+    if fn in ("par", "par2"):
+        return ["ok", [[x, "hello"], "par"]]
+    if fn in ("ff", "gf"):
+        return ["ok", {"__frame__": {"a": [x, 2, 3], "b": ["p", "q", "r"]}, "index": [0, 1, 2], "dtypes": ["int64", "object"]}]
+    if fn in ("fa", "ga"):
+        return ["ok", {"__nd__": [[x, x + 1, x + 2], [x + 3, x + 4, x + 5]], "dtype": "int64"}]
+    if fn in ("fm", "gm"):
+        return ["ok", {"__partition__": {"a": [x, "pa"], "b": "own", "c": [x]}}]
+    if fn in ("fd", "gd"):
+        return ["ok", {"k": [x, "hello"], "n": {"deep": [x, 2.5, None, True]}, "s": "text" * 40}]
     raise KeyError(fn)
+
+
+def expect_op(op):
+    kind, fn, x = op
+    if kind == "batch":
+        outs = [expect(fn, v) for v in x]
+        return ["ok", [o[1] for o in outs]]
+    if kind == "forget":
+        return ["ok", None]
+    return expect(fn, x)
 
 
 # scenario: (pre-script run fault-free in an earlier lifetime, target call, twin call)
@@ -114,13 +192,40 @@ SCENARIOS = {
     "S6-null": ([], ("fz", 1), ("gz", 1)),
     "S7-override": ([("call", "fk", 1)], ("fk", 2), ("gk", 2)),
     "S8-after-forget": ([("call", "f", 1), ("forget", "f", 1)], ("f", 1), ("g", 1)),
+    # nested memoizations inside one call, batches, other serialization strategies, merged partitions
+    "S9-nested": ([], ("par", 1), ("par2", 1)),
+    "S10-batch": ([], ("f", [1, 2, 3], "batch"), ("g", [1, 2, 3], "batch")),
+    "S10b-batch-partly-memoized": ([("call", "f", 2)], ("f", [1, 2, 3], "batch"), ("g", [1, 2, 3], "batch")),
+    "S11-frame": ([], ("ff", 1), ("gf", 1)),
+    "S11b-ndarray": ([], ("fa", 1), ("ga", 1)),
+    "S11c-dict": ([], ("fd", 1), ("gd", 1)),
+    "S12-merged-partition": ([], ("fm", 1), ("gm", 1)),
+    "S12b-merged-partition-parent-stored": ([("call", "fp", 1)], ("fm", 1), ("gm", 1)),
 }
+
+
+def _op(t):
+    """(fn, x) or (fn, xs, 'batch') -> op tuple."""
+    return ("batch", t[0], t[1]) if len(t) == 3 else ("call", t[0], t[1])
 
 
 def normalize(res):
     from twosigma.memento.partition import Partition
     if isinstance(res, Partition):
-        return {"__partition__": {k: res.get(k) for k in sorted(res.list_keys())}}
+        return {"__partition__": {k: normalize(res.get(k)) for k in sorted(res.list_keys())}}
+    import numpy as np
+    import pandas as pd
+    if isinstance(res, pd.DataFrame):
+        return {"__frame__": {c: res[c].tolist() for c in res.columns}, "index": res.index.tolist(),
+                "dtypes": ["object" if str(t) == "str" else str(t) for t in res.dtypes]}
+    if isinstance(res, np.ndarray):
+        return {"__nd__": res.tolist(), "dtype": str(res.dtype)}
+    if isinstance(res, tuple):
+        return [normalize(v) for v in res]
+    if isinstance(res, list):
+        return [normalize(v) for v in res]
+    if isinstance(res, dict):
+        return {k: normalize(v) for k, v in res.items()}
     return res
 
 
@@ -145,12 +250,14 @@ def _run_script(mod, side, script, emit, tag):
         try:
             if kind == "call":
                 res = ["ok", normalize(getattr(mod, fn)(x))]
+            elif kind == "batch":
+                res = ["ok", [normalize(r) for r in getattr(mod, fn).call_batch([{"x": v} for v in x])]]
             else:
                 getattr(mod, fn).forget(x)
                 res = ["ok", None]
         except BaseException as e:  # noqa
             res = ["exc", type(e).__name__, str(e).split(". Original stack trace")[0][:200]]
-        runs = [t[0] for t in side.take()]
+        runs = ["%s:%s" % (t[0], t[1]) for t in side.take()]
         emit({"tag": tag, "op": list(op), "res": res, "runs": runs})
 
 
@@ -211,7 +318,7 @@ def baseline_events(scn, cfg):
         pre, target, twin = SCENARIOS[scn]
         if pre:
             _lifetime(root, cfg, 1, pre, None, "pre")
-        ev, _ = _lifetime(root, cfg, 2, [("call",) + target], None, "base")
+        ev, _ = _lifetime(root, cfg, 2, [_op(target)], None, "base")
         return [e for e in ev if "events" in e][0]["events"]
     finally:
         shutil.rmtree(root, ignore_errors=True)
@@ -264,8 +371,8 @@ def execute(case):
         if pre:
             ev, _ = _lifetime(root, cfg, case["idseed"], pre, None, "pre")
             log.append(ev)
-        tcall = ("call",) + tuple(target)
-        wcall = ("call",) + tuple(twin)
+        tcall = _op(target)
+        wcall = _op(twin)
         # faulted lifetimes: one per distinct 'life' index
         lives = sorted(set(f["life"] for f in case["faults"]))
         fault_desc = None
@@ -289,7 +396,7 @@ def execute(case):
                     fault_desc = {"event": kind, "path": path_class(kind, rel) if rel != "?" else "?", "variant": v.split(":")[0]}
             # (a) in the faulted lifetime, calls that completed must be correct
             for e in ev:
-                if "op" in e and e["res"] != expect(e["op"][1], e["op"][2]):
+                if "op" in e and e["res"] != expect_op(e["op"]):
                     viol.append(("wrong-or-raised-in-faulted-lifetime", e))
         feats = {"scenario": scn.split("-")[0]}
         feats.update(fault_desc or {"event": case["kind"], "path": case["pclass"], "variant": case["faults"][0]["variant"]})
@@ -304,7 +411,7 @@ def execute(case):
             counts = {}
             for e in ev:
                 if "op" in e:
-                    if e["res"] != expect(e["op"][1], e["op"][2]):
+                    if e["res"] != expect_op(e["op"]):
                         viol.append(("wrong-or-raised-after-fault", {"life": li, "op": e["op"], "res": e["res"]}))
                     for r in e["runs"]:
                         counts[r] = counts.get(r, 0) + 1
